@@ -1139,7 +1139,15 @@ class CallMixin:
         """cur('x', default): current value of local x (loop invariants), default when it is not bound yet."""
         name = ast.literal_eval(node.args[0])
         if name in self.ctx.locals:
-            return self.lookup(name, node)
+            v = self.lookup(name, node)
+            if v.ty is sorts.TNone:
+                return self.eval(node.args[1])
+            if isinstance(v.ty, sorts.TOpt):
+                d = self.eval(node.args[1])
+                if d.ty != v.ty.inner:
+                    d = self.coerce(d, v.ty.inner, node)
+                return SV(v.ty.inner, z3.If(v.ty.is_none(v.t), d.t, v.ty.get(v.t)))
+            return v
         return self.eval(node.args[1])
 
     def spec_cur_path(self, node):
@@ -1148,9 +1156,34 @@ class CallMixin:
         if name not in self.ctx.locals:
             return self.eval(node.args[2])
         v = self.lookup(name, node)
+        if v.ty is sorts.TNone:
+            return self.eval(node.args[2])  # bound to None: as good as not bound
+        opt = v if isinstance(v.ty, sorts.TOpt) else None
+        if opt is not None:
+            v = SV(opt.ty.inner, opt.ty.get(opt.t))
         for attr in ast.literal_eval(node.args[1]).split("."):
             v = self.get_attr(v, attr, node)
+        if opt is not None:
+            d = self.eval(node.args[2])
+            if d.ty != v.ty:
+                d = self.coerce(d, v.ty, node)
+            return SV(v.ty, z3.If(opt.ty.is_none(opt.t), d.t, v.t))
         return v
+
+    def spec_cur_path_final(self, node):
+        """cur_path over the function's locals at the exit being checked (postconditions)."""
+        fl = getattr(self, "final_locals", None) or {}
+        saved = self.ctx.locals
+        self.ctx.locals = dict(saved)
+        name = ast.literal_eval(node.args[0])
+        if name in fl:
+            self.ctx.locals[name] = fl[name]
+        else:
+            self.ctx.locals.pop(name, None)
+        try:
+            return self.spec_cur_path(node)
+        finally:
+            self.ctx.locals = saved
 
     def spec_int_of(self, node):
         (v,) = self.args_of(node)
@@ -1274,7 +1307,7 @@ _EMPTY_SET = _EmptyS()
 
 SPEC_FORMS = {
     "forall", "exists", "implies", "iff", "ite", "old", "asc", "desc", "distinct", "elems", "dom", "card",
-    "subset", "empty_set", "is_none", "some", "clock", "raised", "ghost", "get", "int_of", "str_of", "lpre", "pos", "eq_ci", "local", "list_of", "single", "same", "is_numeral", "cur", "cur_path", "matches",
+    "subset", "empty_set", "is_none", "some", "clock", "raised", "ghost", "get", "int_of", "str_of", "lpre", "pos", "eq_ci", "local", "list_of", "single", "same", "is_numeral", "cur", "cur_path", "cur_path_final", "matches",
 }
 
 import itertools
